@@ -143,6 +143,10 @@ SetValue(v) == /\ Step /\ ~Multi /\ objs # <<>>
                   /\ value' = IF ok THEN v ELSE value
                   /\ UNCHANGED <<objs, names, hsnap>>
                   /\ Rec("setvalue", [v |-> v], IF ok THEN 1 ELSE 0, 0, objs, names, value')
+\* the value assigned is one of the current *names* of a dict-declared selector: names are not objects
+SetValueName(k) == /\ Step /\ DictDeclared /\ k \in KeysOf(names)
+                   /\ UNCHANGED <<objs, names, value, hsnap>>
+                   /\ Rec("setvaluename", [k |-> k], 0, 0, objs, names, value)
 SetValues(vs) == /\ Step /\ Multi /\ objs # <<>>
                  /\ LET ok == Range(vs) \subseteq Range(objs) IN
                     /\ value' = IF ok THEN vs ELSE value
@@ -161,7 +165,7 @@ Next == \/ \E x \in Objects : Append_(x) \/ Remove_(x) \/ SetValue(x)
         \/ PopLast \/ Clear_
         \/ \E k \in Keys, x \in Objects : SetKey(k, x)
         \/ \E prs \in Seqs(Pairs, 2), nkw \in 0..1 : (nkw <= Len(prs) /\ Update_(prs, nkw))
-        \/ \E k \in Keys : PopKey(k)
+        \/ \E k \in Keys : PopKey(k) \/ SetValueName(k)
 
 Spec == Init /\ [][Next]_vars
 
